@@ -86,7 +86,9 @@ PPKinds == {"embed", "simple_template", "template", "replace", "none"}
 PPGroups == {Grp(<<RC("applied", t_first)>>, l, EId(1), n) : l \in {"default", "or"}, n \in BOOLEAN}
             \cup {Grp(<<RC("applied", t_first)>>, "expr", e, FALSE) : e \in Exprs1}
             \cup {Grp(<<RC("applied", t_first), RulePool[i]>>, "expr", e, FALSE) : i \in {1, 9, 21, 22, 25}, e \in Exprs2}
-PPCases == {[G |-> Gate(r, Empty, Empty), pp |-> k] : r \in PPGroups, k \in PPKinds}
+PPGroupsState == {Grp(<<RC("applied", t_first), c>>, "expr", e, FALSE) : e \in Exprs2,
+                    c \in {ST(t_k, t_v), ST(t_k, t_w), STN("gte", 5), RC("applied", t_ren), RC("applied", t_nope)}}
+PPCases == {[G |-> Gate(r, Empty, Empty), pp |-> k] : r \in PPGroups \cup PPGroupsState, k \in PPKinds}
 \* nest{T} = T: the same gates with marker items wrapped in a nested pipeline (they must see the state, the
 \* applied items and the field tracking of the enclosing pipeline)
 NestCases == {Gate(r, Empty, Empty) : r \in RuleGroups} \cup {Gate(Empty, i, Empty) : i \in ItemGroups}
@@ -101,6 +103,7 @@ ASSUME LET S == SetToSeq(Cases \cup BadLinkCases)
            Nn == SetToSeq(IF Quick THEN RandomSubset(1500, NestCases) ELSE NestCases)
        IN  ndJsonSerialize(IOEnv.VERIF_OUT, [i \in 1..Len(S) |-> [id |-> i, G |-> S[i], pp |-> "-", nest |-> FALSE]]
                                             \o [i \in 1..Len(P) |-> [id |-> Len(S) + i, nest |-> FALSE] @@ P[i]]
+                                            \o [i \in 1..Len(P) |-> [id |-> 5000000 + i, nest |-> TRUE] @@ P[i]]
                                             \o [i \in 1..Len(Nn) |-> [id |-> Len(S) + Len(P) + i, G |-> Nn[i], pp |-> "-", nest |-> TRUE]])
 Init == x = 0
 Next == UNCHANGED x
